@@ -14,7 +14,7 @@ LEVEL = "model_checking"
 ASSUMPTIONS = [
     "histories respect the statement's precondition: a node is attached to at most one parent, no cycles",
     "add_child indices are within [0, len]",
-    "universes of 3-5 nodes over names a,b,c; larger forests are not explored",
+    "BFS universes of 3-5 nodes over names a, b, ab; beyond them only the parametric families of scale_work (one wide parent x one shift, deep chains x queries)",
 ]
 
 UNIVERSES = {
